@@ -58,17 +58,30 @@ FACT_TIES = {
 }
 
 
+# function-level ties (tools/xlate): which generated packages each property's model rests on
+_SXG, _BND = ['FuncsSxgver', 'FuncsMice', 'FuncsSh', 'FuncsCbor'], ['FuncsBundlever', 'FuncsCbor']
+FUNC_TIES = {
+    'C01': _SXG, 'C02': _SXG, 'C08': _SXG, 'C09': _SXG, 'C03': _BND, 'C04': _BND, 'C05': _BND, 'C06': _BND + ['FuncsMice'], 'C07': ['FuncsCbor'],
+    'C10': _SXG + ['FuncsBundlever'], 'C11': ['FuncsCbor'], 'C12': ['FuncsCbor'], 'C13': ['FuncsCbor'], 'C14': ['FuncsMice'], 'C15': ['FuncsMice'], 'C16': ['FuncsSh'],
+    'C17': ['FuncsCbor'], 'C18': _SXG + ['FuncsBundlever'], 'C19': _SXG + ['FuncsBundlever'], 'C20': _SXG + ['FuncsBundlever'],
+}
+
+
 def lean_check(pid, tier):
     """returns dict(ok, obligations, discharged, theorems, failures[list of str])"""
     res = dict(ok=True, obligations=0, discharged=0, theorems=[], failures=[], axioms={})
     facts = regenerate_facts()
-    if facts:
-        res['ok'] = False
-        res['failures'].append('facts extractor: ' + facts)
+    # regenerated tie: constants / tables of the Go sources (Gen/Facts.lean) and its pure scalar / dispatch functions translated to
+    # Lean (Gen/Funcs<Pkg>.lean), both rewritten above, against the model's definitions
+    tie_names = FACT_TIES.get(pid, []) + FUNC_TIES.get(pid, [])
+    for part, err in facts.items():
+        # a translator refusal concerns only the properties whose ties import that package's module
+        if part == 'facts' or ('Funcs' + part[0].upper() + part[1:]) in tie_names:
+            res['ok'] = False
+            res['failures'].append(f'source translation ({part}): {err}')
     mod = f'WebPkg.Properties.{pid}'
     targets = [mod, 'wpmodel']
-    # regenerated tie: constants / tables of the Go sources (Gen/Facts.lean, rewritten above) against the model's
-    ties = ['WebPkg.Proofs.FactsTie.' + t for t in FACT_TIES.get(pid, [])]
+    ties = ['WebPkg.Proofs.FactsTie.' + t for t in tie_names]
     res['fact_ties'] = ties
     targets += ties
     r = run(['lake', 'build'] + targets, cwd=LEAN)
@@ -99,6 +112,40 @@ def lean_check(pid, tier):
                 res['ok'] = False
                 res['failures'].append(f'forbidden token in {mname}: {ln.strip()[:80]}')
     res['modules_scanned'] = len(seen)
+    # the tie modules: same token scan, and every theorem they state is audited for its axioms
+    tie_thms = []
+    for tmod in ties:
+        fpath = os.path.join(LEAN, *tmod.split('.')) + '.lean'
+        src = strip_comments(open(fpath).read())
+        ns = re.search(r'^namespace\s+(\S+)', src, re.M)
+        for ln in src.splitlines():
+            fm = FORBIDDEN.search(ln)
+            if fm:
+                res['ok'] = False
+                res['failures'].append(f'forbidden token in {tmod}: {ln.strip()[:80]}')
+            tm = re.match(r'\s*theorem\s+([^\s:({\[]+)', ln)
+            if tm and ns:
+                tie_thms.append((tmod, ns.group(1) + '.' + tm.group(1)))
+    res['tie_obligations'], res['tie_discharged'] = len(tie_thms), 0
+    if tie_thms:
+        os.makedirs(BUILD, exist_ok=True)
+        ta = os.path.join(BUILD, f'tie-audit-{pid}.lean')
+        with open(ta, 'w') as f:
+            f.write(''.join(f'import {m}\n' for m in dict.fromkeys(m for m, _ in tie_thms)) + ''.join(f'#print axioms {t}\n' for _, t in tie_thms))
+        r = run(['lake', 'env', 'lean', ta], cwd=LEAN)
+        txt = r.stdout.replace('\n  ', ' ').replace('\n ', ' ')
+        okn = 0
+        for m in re.finditer(r"'([^']+)' (depends on axioms: \[([^\]]*)\]|does not depend on any axioms)", txt):
+            axs = set(a.strip() for a in (m.group(3) or '').split(',') if a.strip())
+            if axs <= ALLOWED_AXIOMS:
+                okn += 1
+            else:
+                res['ok'] = False
+                res['failures'].append(f'tie theorem {m.group(1)} depends on {sorted(axs - ALLOWED_AXIOMS)}')
+        res['tie_discharged'] = okn
+        if r.returncode != 0 or okn != len(tie_thms):
+            res['ok'] = False
+            res['failures'].append(f'tie audit: {okn} of {len(tie_thms)} tie theorems audited: ' + r.stdout[:200])
     audit = os.path.join(LEAN, 'WebPkg', 'Audit', f'{pid}.lean')
     r = run(['lake', 'env', 'lean', audit], cwd=LEAN)
     if r.returncode != 0:
@@ -131,12 +178,20 @@ def lean_check(pid, tier):
 
 
 def regenerate_facts():
-    """Re-extract constants/tables from /repo into Gen/Facts.lean. Returns '' or an error text."""
+    """Re-extract constants/tables from /repo into Gen/Facts.lean and re-translate the whitelisted Go functions into
+    Gen/Funcs<Pkg>.lean. Returns {part: error text} ('facts' or a package tag of tools/xlate); empty when all went well."""
     ex = os.path.join(ROOT, 'tools', 'extract_facts.py')
     if not os.path.exists(ex):
-        return ''
+        return {}
     r = run([sys.executable, ex, REPO, os.path.join(LEAN, 'WebPkg', 'Gen', 'Facts.lean')])
-    return '' if r.returncode == 0 else r.stdout[-300:]
+    if r.returncode == 0:
+        return {}
+    errs = {}
+    for piece in r.stdout.split(' | '):
+        m = re.match(r'\s*xlate (\w+): (.*)', piece, re.S)
+        if m:
+            errs[m.group(1)] = m.group(2)[:300]
+    return errs or {'facts': r.stdout[-300:]}
 
 
 # ---------------------------------------------------------------- Go side
@@ -455,6 +510,7 @@ def write_evidence(pid, tier, seed, lean, ops, classes, distinct, nviol, t0, gen
                          'fact extractor tools/extract (go/ast) regenerating Gen/Facts.lean from /repo on every run; Proofs/FactsTie/*.lean ties the model constants to it',
                          ] + gen.TRUSTED,
         'regenerated_fact_ties': lean.get('fact_ties', []),
+        'tie_theorems': {'stated': lean.get('tie_obligations', 0), 'axiom_audited': lean.get('tie_discharged', 0)},
         'theorems': lean['theorems'],
         'axioms_per_theorem': lean['axioms'],
         'proof_failures': lean['failures'],
